@@ -161,7 +161,7 @@ def names():
 def run(ctx):
     base = ctx.seed * 15485863
     cases = [{'name': n, 'seed': base + 13 * i + 1000003 * r, 'lookups': (i + r) % 3}
-             for r in range(ctx.n(20, 150)) for i, n in enumerate(names())]
+             for r in range(ctx.n(20, 500)) for i, n in enumerate(names())]
     ctx.run_enum('decoder', cases, prop_decoder, exhaustive_label='every BSC_/MSC_ decoder name (tuples sampled)')
     strat = st.fixed_dictionaries({'name': st.sampled_from(names()), 'seed': st.integers(0, 2 ** 62), 'lookups': st.integers(0, 2)})
-    ctx.run_given('decoder', strat, prop_decoder, ctx.n(500, 3000))
+    ctx.run_given('decoder', strat, prop_decoder, ctx.n(500, 10000))
